@@ -17,7 +17,7 @@
 //!   `|n|+d` in the signed type, or `d` itself converted to the signed type) does not fit.
 //! * every helper that builds a negative result by negating a magnitude converted to the signed
 //!   type cannot produce exactly `Signed::MIN`; a failure on that single value is accepted as
-//!   "intermediate does not fit" and counted (`none_signed_min_edge`).
+//!   "intermediate does not fit" and counted (`fail_signed_min_edge`).
 //! * `bound_magnitude`: clamp |v| into `[min,max]`, keep the sign (zero counts as non-negative);
 //!   `Err` iff `min > max` or the clamped magnitude is `min` and `min > Signed::MAX`.
 //! * `usd_to_market_token_amount` follows the three documented GMX branches; `div_to_factor*`
